@@ -190,6 +190,10 @@ def r_execute(ctx):
     conv = [(b, c) for c in b.calls_matching(r"\bDuration::(from_secs_f64|from_secs_f32|mul_f64|mul_f32|div_f64|div_f32)$")]
     for hb_ in helpers:
         conv += [(hb_, c) for c in hb_.calls_matching(r"\bDuration::(from_secs_f64|from_secs_f32|mul_f64|mul_f32|div_f64|div_f32)$")]
+    # the fallible conversions cannot panic: they count as conversions that are safe by construction (fix cfcb90c uses try_from_secs_f64)
+    safe_conv = [c for hb_ in [b] + helpers for c in hb_.calls_matching(r"\bDuration::(try_from_secs_f64|try_from_secs_f32)$")]
+    for c in safe_conv:
+        ctx.ok("C14.R3", [b.id, c.name.split("::")[-1], "fallible"], "fallible conversion (returns Err instead of panicking)", c.loc(), sample={"conversion": c.loc()})
     b_exec = b
     for n, (b, c) in enumerate(conv):
         meth = c.name.split("::")[-1]
@@ -209,7 +213,7 @@ def r_execute(ctx):
                       "execute(): Duration::%s multiplies by the configured multiplier before any clamp: NaN, infinite, huge or negative multipliers panic "
                       "inside the conversion, before `.min(max_backoff)` can apply" % meth, c.loc())
     b = b_exec
-    ctx.floor("C14.R3", len(conv), 1, "float->Duration conversions in execute (and the private helpers it calls)")
+    ctx.floor("C14.R3", len(conv) + len(safe_conv), 1, "float->Duration conversions in execute (and the private helpers it calls)")
     # ---- R4b: Retry-After precedence and jitter -------------------------------------------------------------
     hint = b.calls_matching(r"ProtocolError::retry_after_hint$")
     if ctx.anchor("C14.R4", hint, "retry_after_hint() in execute"):
